@@ -230,7 +230,9 @@ Proof. vm_compute. repeat split; reflexivity. Qed.
 Theorem C04_history_pure :
   forall (rx : str -> str -> bool) (ns : list node) (ops : list op),
     wf_dag ns = true -> forallb (op_ok ns) ops = true ->
-    snd (run rx ns ops) = spec_run rx ns ops /    (forall i t, get_red (fst (run rx ns ops)) i = Some t -> t = infer rx (nth i (vals_of ns) VUndef)) /    (forall i t, get_det (fst (run rx ns ops)) i = Some t -> t = infer_detailed rx (nth i (vals_of ns) VUndef)).
+    snd (run rx ns ops) = spec_run rx ns ops /\
+    (forall i t, get_red (fst (run rx ns ops)) i = Some t -> t = infer rx (nth i (vals_of ns) VUndef)) /\
+    (forall i t, get_det (fst (run rx ns ops)) i = Some t -> t = infer_detailed rx (nth i (vals_of ns) VUndef)).
 Proof.
   intros rx ns ops Hwf Hops. destruct (history_pure rx ns Hwf ops Hops) as [H1 (_ & H2 & H3)].
   split; [exact H1|]. split; [exact H2|exact H3].
@@ -275,7 +277,7 @@ Theorem C04_history_common_ub_partial :
 Proof.
   intros rx ns ops k a b Hwf Hops Hk Ha Hb res ta tb Hok Hwa Hwb Hno.
   assert (Hr : refs_ok k (OCommon a b) = true) by (cbn [refs_ok]; rewrite Ha, Hb; reflexivity).
-  unfold res at 1 3. rewrite (history_result_end rx ns Hwf ops k _ Hops Hk Hr). cbn [spec_op].
+  unfold res. rewrite (history_result_end rx ns Hwf ops k _ Hops Hk Hr). cbn [spec_op].
   apply C04_common_ub_partial; assumption.
 Qed.
 Print Assumptions C04_history_common_ub_partial.
@@ -287,7 +289,7 @@ Theorem C04_history_generalize_ub :
     gen_ok (deref res a) = true -> asg rx true (nth k res TFault) (deref res a) = true.
 Proof.
   intros rx ns ops k a Hwf Hops Hk Ha res Hg.
-  unfold res at 1. rewrite (history_result_end rx ns Hwf ops k _ Hops Hk Ha). cbn [spec_op].
+  unfold res. rewrite (history_result_end rx ns Hwf ops k _ Hops Hk Ha). cbn [spec_op].
   apply C04_generalize_ub. exact Hg.
 Qed.
 Print Assumptions C04_history_generalize_ub.
@@ -301,7 +303,9 @@ Example C04_history_nonvacuous :
              NArr [3; 5]%nat; NArr [3; 7]%nat; NHash [(0, 3); (4, 8)]%nat] in
   let ops := [OPType 8; ODetailed 3; OPType 9; OCommon (RRes 0) (RRes 2); OPType 8; OGeneralize (RRes 3); ODetailed 10; OPType 3]%nat in
   let e := fun l => TEnum false (map (fun c : N => [c]) l) in
-  wf_dag ns = true /\ forallb (op_ok ns) ops = true /  nth 8 (vals_of ns) VUndef = VArr [VArr [VStr [97%N]; VStr [98%N]; VStr [99%N]]; VArr [VStr [100%N]]] /  snd (run rx ns ops) =
+  wf_dag ns = true /\ forallb (op_ok ns) ops = true /\
+  nth 8 (vals_of ns) VUndef = VArr [VArr [VStr [97%N]; VStr [98%N]; VStr [99%N]]; VArr [VStr [100%N]]] /\
+  snd (run rx ns ops) =
     [TArray (TArray (e [97; 98; 99; 100]%N) 1 3) 2 2;
      TTuple [TStringVal [97%N]; TStringVal [98%N]; TStringVal [99%N]] false 3 3;
      TArray (TArray (e [97; 98; 99; 101]%N) 1 3) 2 2;
@@ -311,6 +315,11 @@ Example C04_history_nonvacuous :
      TStruct [([97%N], (TStringVal [97%N], TTuple [TStringVal [97%N]; TStringVal [98%N]; TStringVal [99%N]] false 3 3));
               ([100%N], (TStringVal [100%N], TTuple [TTuple [TStringVal [97%N]; TStringVal [98%N]; TStringVal [99%N]] false 3 3;
                                                        TTuple [TStringVal [100%N]] false 1 1] false 2 2))];
-     TArray (e [97; 98; 99]%N) 3 3] /  get_red (fst (run rx ns ops)) 3 = Some (TArray (e [97; 98; 99]%N) 3 3) /  get_red (fst (run rx ns ops)) 10 = None /  iv_ok rx (nth 8 (vals_of ns) VUndef) = true /  inst rx true (nth 0 (snd (run rx ns ops)) TFault) (nth 8 (vals_of ns) VUndef) = true /  (* what the seeded change turned the first result into does not contain the value *)
+     TArray (e [97; 98; 99]%N) 3 3] /\
+  get_red (fst (run rx ns ops)) 3 = Some (TArray (e [97; 98; 99]%N) 3 3) /\
+  get_red (fst (run rx ns ops)) 10 = None /\
+  iv_ok rx (nth 8 (vals_of ns) VUndef) = true /\
+  inst rx true (nth 0 (snd (run rx ns ops)) TFault) (nth 8 (vals_of ns) VUndef) = true /\
+  (* what the seeded change turned the first result into does not contain the value *)
   inst rx true (TArray (TArray (e [97; 98; 99; 101]%N) 1 3) 2 2) (nth 8 (vals_of ns) VUndef) = false.
 Proof. vm_compute. repeat split; reflexivity. Qed.
